@@ -12,6 +12,7 @@ import (
 	"path/filepath"
 	"runtime"
 	"strconv"
+	"syscall"
 	"sync"
 	"testing"
 	"time"
@@ -167,6 +168,17 @@ func runReattachCase(c raCase, bin, tmp string) []map[string]interface{} {
 			clients[op.C].Kill()
 			res = "done"
 			time.Sleep(150 * time.Millisecond)
+		case "Crash":
+			// the plugin dies without any shutdown; its socket file stays behind
+			if pid != 0 {
+				syscall.Kill(pid, syscall.SIGKILL)
+				// Gone means reaped by its parent (the launching client's wait goroutine): a zombie
+				// thread-group leader can still have threads that keep the listening socket open.
+				for i := 0; i < 300 && (alive() || (clients["c1"] != nil && !clients["c1"].Exited())); i++ {
+					time.Sleep(10 * time.Millisecond)
+				}
+			}
+			res = "killed"
 		case "Cancel":
 			cancel()
 			select {
